@@ -51,8 +51,8 @@ def _resolve_target(
 
     `JSONPointer` resolves some non-standard tokens, like `~name`, to the name
     of a member, or `#0` to the index of an array element. Such a token does not
-    address a member or element of the target document, so a patch operation
-    must see it as missing.
+    address a member or element of the target document. A patch operation must
+    see the member as missing, and can do nothing with the array token.
     """
     # _data_ has been loaded already. If an operation has made the document a
     # string, it is a JSON string, not JSON text to be parsed.
@@ -63,7 +63,7 @@ def _resolve_target(
             if _member_name(parent, target) not in parent:
                 obj = UNDEFINED
         elif isinstance(parent, Sequence) and not _is_index(target):
-            obj = UNDEFINED
+            raise JSONPatchError(f"invalid array index {target!r}")
     return parent, obj
 
 
